@@ -33,6 +33,7 @@ struct Rec {
   std::atomic<int> maxRunning{0};
   std::atomic<int> stateClash{0};
   int spinUs = 0;
+  int rendezvous = 0;       // > 0: a body lingers (bounded) until more than this many run at once
 };
 
 struct St8 {
@@ -68,7 +69,10 @@ static void body(Rec& rec, St8* st, T s, T e) {
   int r = rec.running.fetch_add(1) + 1;
   int m = rec.maxRunning.load();
   while (r > m && !rec.maxRunning.compare_exchange_weak(m, r)) {}
-  if (rec.spinUs) { auto t0 = std::chrono::steady_clock::now(); while (std::chrono::steady_clock::now() - t0 < std::chrono::microseconds(rec.spinUs)) {} }
+  if (rec.rendezvous) {
+    auto t0 = std::chrono::steady_clock::now();
+    while (rec.maxRunning.load() <= rec.rendezvous && std::chrono::steady_clock::now() - t0 < std::chrono::microseconds(1500)) std::this_thread::yield();
+  } else if (rec.spinUs) { auto t0 = std::chrono::steady_clock::now(); while (std::chrono::steady_clock::now() - t0 < std::chrono::microseconds(rec.spinUs)) {} }
   { std::lock_guard<std::mutex> lk(rec.m); rec.chunks.push_back({(long long)s, (long long)e}); rec.sptr.push_back(st); }
   rec.running.fetch_sub(1);
   if (st) st->inUse.fetch_sub(1);
@@ -114,8 +118,9 @@ static void runOnSet(const Cfg<T>& c, Rec& rec, std::vector<St8>& states) {
 }
 
 template <typename T>
-static void runCfg(const Cfg<T>& c, const char* tname, int bits, int sg) {
+static void runCfg(const Cfg<T>& c, const char* tname, int bits, int sg, bool rendezvous = false) {
   Rec rec;
+  if (rendezvous) rec.rendezvous = (int)std::max<uint32_t>(c.maxThreads > 0x7fffffffu ? 1 : c.maxThreads, 1);
   rec.spinUs = (gProp == "C48" || gProp == "C14") ? 30 : 0;
   std::vector<St8> states;
   if (c.stateful && c.reuseState) states.resize((size_t)((c.maxThreads + (uint32_t)c.g) % 7));   // 0..6 elements to be reused
@@ -153,9 +158,9 @@ static void runCfg(const Cfg<T>& c, const char* tname, int bits, int sg) {
     if (odd > 1 || !oddAtEnd)
       std::printf("PFAIL parallel_for granularity contract violated (a non-multiple chunk not at the range end, or several) | %s n=%zu%s\n", gLast, ch.size(), items.substr(0, 200).c_str());
   }
-  if (gProp == "C14" && c.stateful) {
-    if (rec.stateClash.load()) std::printf("PFAIL parallel_for used one state object from two invocations at once | %s\n", gLast);
-    if (hi > lo && states.empty()) std::printf("PFAIL parallel_for left the states container empty | %s\n", gLast);
+  if ((gProp == "C14" || gProp == "C48") && c.stateful) {
+    if (gProp == "C14" && rec.stateClash.load()) std::printf("PFAIL parallel_for used one state object from two invocations at once | %s\n", gLast);
+    if (gProp == "C14" && hi > lo && states.empty()) std::printf("PFAIL parallel_for left the states container empty | %s\n", gLast);
     // chunk -> index of the states element it was given (pointer identity), compared with the execution model
     std::vector<std::array<long long, 3>> tri;
     bool outside = false;
@@ -165,7 +170,7 @@ static void runCfg(const Cfg<T>& c, const char* tname, int bits, int sg) {
       if (idx < 0) outside = true;
       tri.push_back({rec.chunks[i].first, rec.chunks[i].second, idx});
     }
-    if (outside) std::printf("PFAIL parallel_for passed a state object that is not an element of the states container | %s\n", gLast);
+    if (gProp == "C14" && outside) std::printf("PFAIL parallel_for passed a state object that is not an element of the states container | %s\n", gLast);
     std::sort(tri.begin(), tri.end());
     std::string ti;
     for (auto& t : tri) ti += " " + std::to_string(t[0]) + " " + std::to_string(t[1]) + " " + std::to_string(t[2]);
@@ -227,9 +232,24 @@ static void sampleType(vh::SplitMix& rng, long long count, const char* tname, in
     c.useCts = rng.below(3) == 0;
     c.stateful = (gProp == "C14") || rng.below(4) == 0;
     c.reuseState = rng.below(4) == 0;
+    bool rdv = false;
+    if (gProp == "C48" && rng.below(4) == 0) {
+      // small ranges on a larger pool with a low maxThreads: the task count (= states created) is tied to the
+      // model and the bodies linger so that an over-launch shows as concurrency
+      c.pool = rng.coin() ? 6 : 8;
+      len = rng.below((unsigned long long)c.pool + 3);
+      if (len > room) len = room;
+      c.stop = b = (T)((__int128)a + (__int128)len);
+      static const uint32_t lo[] = {0, 1, 2, 3, 4};
+      c.maxThreads = lo[rng.below(5)];
+      c.minItems = 1; c.g = rng.below(4) == 0 ? 2 : 1;
+      c.chunkMode = rng.below(3) == 0 ? (rng.coin() ? 0 : -1) : (int)rng.range(1, 2);
+      c.stateful = true; c.reuseState = false; c.nested = false;
+      rdv = true;
+    }
     // 64-bit adaptive+wait ranges ending within 2^40 of the type maximum: known finding, probed separately
     if (bits == 64 && c.chunkMode == 0 && c.wait && (unsigned long long)L::max() - (unsigned long long)b < (1ull << 40)) c.wait = false;
-    runCfg<T>(c, tname, bits, sg);
+    runCfg<T>(c, tname, bits, sg, rdv);
   }
 }
 
